@@ -16,6 +16,12 @@ thread asking for a type nobody can load gets ProviderNotFoundError exactly as s
 the valid first requests racing with it (they sit inside `cached_call` between `key in cache` and `cache[key]`).
 Leaf failures are modelled (`stepRaise`, `specRes`; theorems `cached_call_read_never_misses`,
 `call_cache_insert_only`, `failing_request_gets_not_found`); requests failing half-way are oracle-only.
+Threads that DERIVE a retort from the shared one are part of the input space too (generated family `drv:...`, see
+DERIVATIONS): `retort.replace(...)` / `retort.extend(...)` is a call on the shared retort like any other - it must
+complete and the retort it returns must behave exactly as one derived single-threaded - while other threads make
+first requests on the origin, which may have been used before (`warm`).  For this family the scheduler also yields at
+every statement that touches the contents of a shared cache (scheduler.py, `shared` points) and, at statement
+granularity, at every line the cloning code executes.
 """
 
 import linecache
@@ -48,7 +54,15 @@ CLAIM = {
         "every interleaving (failing_request_gets_not_found), its failure touches nothing shared, both caches are "
         "insert-only along every schedule (call_cache_insert_only, loader_cache_insert_only) and therefore the "
         "read `self._call_cache[key]` after `key in self._call_cache` finds its entry whatever other threads did "
-        "in between (cached_call_read_never_misses). For the unrepaired "
+        "in between (cached_call_read_never_misses). Deriving a retort from the shared one (Retort.replace / "
+        "Retort.extend) while other threads store into its caches has its own small model "
+        "(AdaptixModel/Retort/Derive.lean: a Python dict with the size check of its iterator, a schedule of clone "
+        "steps and arbitrary stores): the code as it is - the clone starts from an empty cache and never reads the "
+        "origin's - cannot fail, takes one atomic step and yields an empty cache under every interleaving "
+        "(fresh_clone_is_safe, fresh_clone_completes), an atomic copy is safe too (snapshot_clone_is_safe), whereas "
+        "iterating over the live dict raises as soon as ANY store of a new key falls inside the iteration "
+        "(store_inside_the_iteration_is_fatal, iterate_has_a_bad_schedule: one preemption suffices for every "
+        "origin). For the unrepaired "
         "FuncWrapper (stubs equal by location) the faithful model has a 2-thread schedule with ONE preemption "
         "that calls an unbound stub (exists_bad_schedule, kernel evaluation); the harness replays it on the real "
         "retort. The model is tied to the code by replaying every explored schedule on real threads under a "
@@ -61,7 +75,14 @@ CLAIM = {
         "preemption over 9 two-thread type graphs, <= 2 sampled, random and statement-granularity schedules; "
         "thorough: <= 2 exhaustive, <= 4 sampled; plus the generated family 'a failing request races with a valid "
         "one': 6 failing x 9 valid requests, all schedules with <= 1 preemption for a seed-drawn subset (quick: 3-5 "
-        "pairs, thorough: about 20 of the 54 pairs)). Assumed: CPython with the GIL makes a single dict lookup / "
+        "pairs, thorough: about 20 of the 54 pairs); and the generated family 'a thread derives a retort with "
+        "replace / extend (5 derivations) from the shared, possibly already used retort and works with it while the "
+        "others make first requests on the origin': all schedules with <= 1 preemption for 2-4 seed-drawn members "
+        "(thorough: about 20), every derivation compared with the Derive model run on the same interleaving (suite "
+        "derive-run: completes, one step touching a shared cache, empty caches), the results of the derived and of "
+        "the shared retort compared with single-threaded runs). Derived retorts are not part of the big transition "
+        "system (it has ONE retort); what ties the two models is only that the code hands the clone fresh dicts. "
+        "Assumed: CPython with the GIL makes a single dict lookup / "
         "dict store / attribute store atomic; preemption inside C-level operations cannot be exhibited by line "
         "tracing; of the failing requests only those for an unloadable ROOT type are modelled (a request failing "
         "half-way, below a model, is checked by the direct oracle only); `typed` is checked per graph, "
@@ -71,7 +92,8 @@ CLAIM = {
     "design_ref": "DESIGN.md §4 C12",
 }
 PROPS_FILE = "AdaptixProofs/Props/C12.lean"
-LEAN_TARGETS = ["AdaptixProofs.Props.C12", "drv_c12"]
+EXTRA_PROPS_FILES = ["AdaptixProofs/Props/C12Derive.lean"]
+LEAN_TARGETS = ["AdaptixProofs.Props.C12", "AdaptixProofs.Props.C12Derive", "drv_c12"]
 RULE = ("a case is one schedule of 2-3 real threads racing on the first get_loader/get_dumper + call of one "
         "retort over 11 type-graph scenarios; quick: ALL schedules with <= 1 preemption for the 9 two-thread "
         "scenarios (sampled for the 2 expensive ones), <= 2 preemptions exhaustive for the plain model and sampled "
@@ -82,7 +104,16 @@ RULE = ("a case is one schedule of 2-3 real threads racing on the first get_load
         "Optional of such a model), the other(s) a valid first request (9 kinds: call-cache hits inside one request, "
         "recursion stubs, dumpers); quick: ALL schedules with <= 1 preemption for one seed-drawn victim per failing "
         "request within 6 s, thorough: the pairs in seed order within 45 s + <= 2 sampled with 2-3 threads; members of the family also in the "
-        "random / facade / malformed / statement-granularity stages (3 in 10). A case is non-trivial when at least two threads were inside the creation "
+        "random / facade / malformed / statement-granularity stages (3 in 10). Generated family 2: one thread derives "
+        "a retort from the shared one (replace(strict_coercion=False) with ints spelled as strings, "
+        "replace(debug_trail=DISABLE), replace(hide_traceback=False), extend(recipe=[]), extend(recipe=[loader(int, "
+        "v+1)])) and issues a request on it, the other(s) make a first request (valid or failing) on the origin, which "
+        "has been used before for 0-3 other types; scheduling points = the located yield points + every statement of "
+        "the traced files that touches the contents of a shared cache (AST shape, one point per line event: a loop "
+        "over a cache yields per iteration); quick: ALL schedules with <= 1 preemption for the members in seed order "
+        "within 4.5 s + 1.5 s of random schedules at statement granularity in which every line executed by the cloning "
+        "code is a preemption point; thorough: 25 s + 9 s of <= 2 sampled with 2-3 threads + 11 s; members also in the "
+        "random / facade / malformed / statement-granularity stages (3 in 20). A case is non-trivial when at least two threads were inside the creation "
         "code at the same time (their actions interleave before the first loader-cache store)")
 ASSUMPTIONS = [
     "GIL atomicity of a single dict lookup, dict store and attribute store (CPython 3.12 with the GIL; "
@@ -94,6 +125,11 @@ ASSUMPTIONS = [
     "of the requests that fail only those for an unloadable ROOT type are modelled (all shape probes raise, "
     "nothing is stored, `_facade_provide` raises); a request that fails half-way (an unloadable type below a model) "
     "is run under the direct oracle only",
+    "a derivation (replace / extend) is modelled on its own (Derive.lean: cloning strategy x arbitrary concurrent "
+    "stores), not inside the transition system of the requests; `copy(self)` of the retort object is one C-level "
+    "operation; statements that touch a shared cache are recognised syntactically (attribute name, local alias, "
+    "string constant naming the attribute) - an access through a helper that receives the dict as a parameter is "
+    "only met at statement granularity (wide tracing of the cloning code)",
     "ConcurrentCounter's critical section is one atomic action of the model (it touches only the counter and "
     "cannot block); the harness still preempts inside it and treats the lock as a lock",
 ]
@@ -410,6 +446,13 @@ VALID_REQUESTS = [
 QUICK_VICTIMS = [r for r in VALID_REQUESTS if r[1] in (Twin, Pair, Chain, Node, Tree, Sub)]
 
 
+# requests a deriving thread issues on the retort it derived (cheap: the point is the derivation, and the derived
+# retort starts from empty caches), and requests that warm the origin up
+DERIVED_REQUESTS = [("load", Sub, 0), ("load", Twin, 0), ("load", Pair, 0), ("load", Node, 1), ("dump", Tree, 1)]
+WARM_REQUESTS = [("load", Twin, 0), ("load", Pair, 0), ("load", Sub, 0), ("load", Node, 3), ("load", Chain, 3),
+                 ("dump", Tree, 2)]
+
+
 def request_name(req) -> str:
     d, tp, depth = req
     return f"{d}:{type_name(tp)}:{depth}"
@@ -452,6 +495,9 @@ def mixed_random(rng):
 def scenario_by_name(name: str, threads_hint=None):
     if name in SCENARIOS:
         return Scenario(name)
+    drv = derive_from_name(name)
+    if drv is not None:
+        return derive_scenario(*drv)
     threads = threads_from_name(name)
     if threads is None and threads_hint:
         try:
@@ -459,6 +505,150 @@ def scenario_by_name(name: str, threads_hint=None):
         except (KeyError, ValueError, TypeError):
             threads = None
     return Scenario(name, threads) if threads else None
+
+
+# ---------------------------------------------------------------------------
+# generated scenarios: a thread DERIVES a retort from the shared one while others make first requests on it
+# ---------------------------------------------------------------------------
+# `retort.replace(...)` / `retort.extend(...)` are calls on the shared retort ("every call completes without error
+# ... and returns what a single-threaded run returns"); the documented usage is a module-level retort from which
+# variations are derived wherever they are needed.  A thread of this family derives a retort (`via`), then issues
+# its request on the DERIVED retort; the other threads issue first requests on the origin.  `warm` = requests made
+# on the origin before the threads start (a retort that has been in use: its caches are not empty).
+# Every derivation is observable: the single-threaded expectation is computed through the same derivation.
+
+def _plus_one(v):
+    return v + 1
+
+
+def derive(retort, via: str):
+    from adaptix import DebugTrail, loader
+    if via == "replace-lax":
+        return retort.replace(strict_coercion=False)        # data of this thread: ints spelled as strings
+    if via == "replace-trail":
+        return retort.replace(debug_trail=DebugTrail.DISABLE)
+    if via == "replace-tb":
+        return retort.replace(hide_traceback=False)
+    if via == "extend-empty":
+        return retort.extend(recipe=[])
+    if via == "extend-int":
+        return retort.extend(recipe=[loader(int, _plus_one)])    # every int field of the DERIVED retort loads as v + 1
+    raise InfraError(f"unknown derivation {via!r}")
+
+
+DERIVE_KINDS = ["replace-lax", "replace-trail", "replace-tb", "extend-empty", "extend-int"]
+
+
+def via_data(via, data, direction):
+    """the datum a thread hands to the retort it derived"""
+    if via == "replace-lax" and direction == "load":
+        def lax(x):
+            if isinstance(x, bool) or x is None:
+                return x
+            if isinstance(x, int):
+                return str(x)
+            if isinstance(x, dict):
+                return {k: lax(v) for k, v in x.items()}
+            if isinstance(x, list):
+                return [lax(v) for v in x]
+            return x
+        return lax(data)
+    return data
+
+
+def derive_name(warm, threads, vias) -> str:
+    return ("drv:warm(" + ",".join(request_name(r) for r in warm) + ")|"
+            + "|".join((f"{v}@" if v else "") + request_name(r) for r, v in zip(threads, vias)))
+
+
+def _request_from_name(part: str):
+    bits = part.split(":")
+    if len(bits) != 3 or bits[0] not in ("load", "dump") or bits[1] not in ROOT_TYPES or not bits[2].isdigit():
+        return None
+    return (bits[0], ROOT_TYPES[bits[1]], int(bits[2]))
+
+
+def derive_from_name(name: str):
+    """inverse of `derive_name`: (warm, threads, vias) or None"""
+    if not name.startswith("drv:warm("):
+        return None
+    head, _, rest = name[len("drv:warm("):].partition(")|")
+    warm = [_request_from_name(p) for p in head.split(",") if p]
+    threads, vias = [], []
+    for part in rest.split("|"):
+        via, sep, req = part.rpartition("@")
+        if sep and via not in DERIVE_KINDS:
+            return None
+        vias.append(via if sep else None)
+        threads.append(_request_from_name(req))
+    if not threads or None in warm or None in threads or not any(vias):
+        return None
+    return warm, threads, vias
+
+
+def derive_cases(rng, quick: bool):
+    """the systematic part of the family: [derived request, first request on the origin], every derivation in seed
+    order, two of three on an origin that has been used before; the first request is for a type the origin has NOT
+    seen (that is what makes it a first request)"""
+    kinds = list(DERIVE_KINDS)
+    rng.shuffle(kinds)
+    firsts = QUICK_VICTIMS if quick else VALID_REQUESTS
+    out = []
+    for rnd in range(6):
+        for i, via in enumerate(kinds):
+            first = rng.choice(FAILING_REQUESTS) if rng.random() < 0.15 else rng.choice(firsts)
+            warm = []
+            if (rnd + i) % 3 != 2:
+                pool = [r for r in WARM_REQUESTS if r[1] is not first[1]]
+                warm = rng.sample(pool, rng.choice([1, 1, 2]))
+            out.append((warm, [rng.choice(DERIVED_REQUESTS), first], [via, None]))
+    return out
+
+
+def derive_random(rng):
+    """a random member: 2-3 threads, at least one deriving thread and one plain first request, any warm-up"""
+    n = rng.choice([2, 2, 3])
+    threads = [rng.choice(DERIVED_REQUESTS), rng.choice(VALID_REQUESTS + FAILING_REQUESTS[:3])]
+    vias = [rng.choice(DERIVE_KINDS), None]
+    while len(threads) < n:
+        if rng.random() < 0.5:
+            threads.append(rng.choice(DERIVED_REQUESTS))
+            vias.append(rng.choice(DERIVE_KINDS))
+        else:
+            threads.append(rng.choice(VALID_REQUESTS))
+            vias.append(None)
+    order = list(range(n))
+    rng.shuffle(order)
+    threads, vias = [threads[i] for i in order], [vias[i] for i in order]
+    warm = rng.sample(WARM_REQUESTS, rng.choice([0, 1, 1, 2, 3]))
+    return warm, threads, vias
+
+
+def chooser_inside_derive(rng, sc, p_inside: float, p_else: float):
+    """random schedules that spend their preemptions where the family lives: a thread that is inside its deriving
+    call (between its harness actions `derive` and `derived`) is preempted with probability `p_inside` per
+    scheduling point, any other thread with `p_else`"""
+    state = {"n": 0, "inside": set()}
+
+    def choose(run, enabled, cur):
+        for a in run.actions[state["n"]:]:
+            if a[1] == "derive":
+                state["inside"].add(a[0])
+            elif a[1] == "derived":
+                state["inside"].discard(a[0])
+        state["n"] = len(run.actions)
+        if cur is None:
+            return rng.choice(enabled)
+        if rng.random() < (p_inside if cur in state["inside"] else p_else):
+            others = [t for t in enabled if t != cur]
+            if others:
+                return rng.choice(others)
+        return cur
+    return choose
+
+
+def derive_scenario(warm, threads, vias) -> "Scenario":
+    return Scenario(derive_name(warm, threads, vias), threads, vias=vias, warm=warm)
 
 
 # ---------------------------------------------------------------------------
@@ -470,13 +660,15 @@ class Real:
         from adaptix import Retort
         from adaptix._internal.retort.operating_retort import FuncWrapper
         self.Retort = Retort
-        self.table = S.PointTable(core.REPO / "src")
+        self.shared_attrs = sorted(S.SHARED_ATTRS | discover_shared_containers(Retort))
+        self.table = S.PointTable(core.REPO / "src", shared_attrs=self.shared_attrs)
         self.mode = "byLoc" if FuncWrapper(("probe",)) == FuncWrapper(("probe",)) else "byId"
         self._expected: dict = {}
 
-    def expected(self, direction, tp, depth):
-        """what a fresh retort returns single-threaded (computed in a helper thread: a tree under test may hang)"""
-        k = (direction, type_name(tp), depth)
+    def expected(self, direction, tp, depth, via=None):
+        """what a fresh retort (or the retort derived from a fresh one by `via`) returns single-threaded (computed
+        in a helper thread: a tree under test may hang)"""
+        k = (direction, type_name(tp), depth, via)
         if k not in self._expected:
             import threading
             box: list = []
@@ -485,6 +677,9 @@ class Real:
                 try:
                     r = self.Retort()
                     data = gen_data(tp, depth, direction)
+                    if via is not None:
+                        r = derive(r, via)
+                        data = via_data(via, data, direction)
                     box.append(("value", r.load(data, tp) if direction == "load" else r.dump(data, tp)))
                 except BaseException as e:  # noqa: BLE001
                     box.append(("raises", classify_exc(e)))
@@ -493,6 +688,22 @@ class Real:
             th.join(15)
             self._expected[k] = box[0] if box else ("hangs", None)
         return self._expected[k]
+
+
+def discover_shared_containers(Retort) -> set:
+    """names of the mutable containers of a retort that a request writes to (found by running one load and one dump
+    on a scratch retort): the shared state the scheduler watches, whatever it is called"""
+    def sizes(r):
+        return {n: len(v) for n, v in vars(r).items() if isinstance(v, (dict, list, set))}
+    try:
+        r = Retort()
+        before = sizes(r)
+        r.load({"x": 1}, Sub)
+        r.dump(Tree([]), Tree)
+        after = sizes(r)
+        return {n for n in after if after[n] != before.get(n)}
+    except Exception:  # noqa: BLE001  (a tree under test may fail here; the oracle will say so)
+        return set()
 
 
 def real_fails(tp) -> bool:
@@ -529,23 +740,30 @@ def _loc_key(loc) -> tuple:
 
 
 class Scenario:
-    def __init__(self, name: str, threads=None):
+    def __init__(self, name: str, threads=None, vias=None, warm=()):
         self.name = name
         self.threads = threads if threads is not None else SCENARIOS[name]
+        self.vias = list(vias) if vias else [None] * len(self.threads)     # derivation of the thread's own retort
+        self.warm = list(warm)                                             # requests made on the origin beforehand
+        self.derive = any(self.vias)
         self.uni = Universe()
         self.ty_by_name = {}
         self.failing = [real_fails(tp) for _, tp, _ in self.threads]       # which threads issue a failing request
         try:
+            if self.derive:
+                raise InfraError("the transition system has ONE retort: derived retorts are outside the model")
             self.tys = [self.uni.ty(d, tp) for d, tp, _ in self.threads]
             self.modelled = True
         except InfraError:
-            # outside the Lean model (a request failing half-way, an int dumper): direct oracle only
+            # outside the Lean model (a request failing half-way, an int dumper, a derived retort): direct oracle only
             self.tys = []
             self.modelled = False
 
     @property
     def family(self) -> str:
         """evidence bucket: the named scenarios are their own family, the generated ones are grouped by what fails"""
+        if self.derive:
+            return "derive"
         if not any(self.failing):
             return self.name
         leaf = all(is_unloadable_leaf(tp) for (_, tp, _), f in zip(self.threads, self.failing) if f)
@@ -576,31 +794,40 @@ class Scenario:
 class Outcome:
     """result of one controlled execution, canonicalised"""
 
-    def __init__(self, sc: Scenario, run: S.Run, real: Real, loaders: list, retort):
+    def __init__(self, sc: Scenario, run: S.Run, real: Real, loaders: list, retort, clones=None, warm_exc=None):
         self.run = run
         self.trace = canon_real_trace(sc, run.actions)
         self.schedule_tids = [a[0] for a in self.trace]
         self.results = []
         self.problems: list[tuple[str, str]] = []
-        for ts, (direction, tp, depth) in zip(run.threads, sc.threads):
+        clones = clones if clones is not None else [None] * len(sc.threads)
+        if warm_exc is not None:
+            self.problems.append(("warm-up:" + classify_exc(warm_exc),
+                                  f"a request made single-threaded on the retort before the threads start raised "
+                                  f"{type(warm_exc).__name__}: {str(warm_exc)[:160]}"))
+        for ts, (direction, tp, depth), via in zip(run.threads, sc.threads, sc.vias):
             if run.deadlock is not None and ts.status != "done":
                 self.results.append("deadlock")
                 continue
+            who = f"({direction} {type_name(tp)} depth {depth}" + (f" on retort.{via}" if via else "") + ")"
             if ts.exc is not None:
                 cls = classify_exc(ts.exc)
-                exp = real.expected(direction, tp, depth)
+                exp = real.expected(direction, tp, depth, via)
                 if cls == NOT_FOUND and exp == ("raises", NOT_FOUND):
                     # the documented outcome of a request nobody can satisfy, with or without threads
                     self.results.append("not_found")
                     continue
                 self.results.append(cls)
-                self.problems.append((cls, f"thread {ts.tid} ({direction} {type_name(tp)} depth {depth}) raised "
+                where = ""
+                if via and clones[ts.tid] is None:
+                    where = f" inside the derivation `retort.{via}` itself"
+                self.problems.append((cls, f"thread {ts.tid} {who} raised{where} "
                                            f"{type(ts.exc).__name__}: {str(ts.exc)[:160]}"
                                            + (f" (a single-threaded run raises {exp[1]})" if exp[0] == "raises" else "")))
-            elif ("value", ts.result) != real.expected(direction, tp, depth):
+            elif ("value", ts.result) != real.expected(direction, tp, depth, via):
                 self.results.append("wrong-result")
-                self.problems.append(("wrong-result", f"thread {ts.tid} ({direction} {type_name(tp)}) returned "
-                                                      f"{ts.result!r}, single-threaded {real.expected(direction, tp, depth)!r}"))
+                self.problems.append(("wrong-result", f"thread {ts.tid} {who} returned "
+                                                      f"{ts.result!r}, single-threaded {real.expected(direction, tp, depth, via)!r}"))
             else:
                 self.results.append("ok")
         if run.deadlock is not None:
@@ -608,11 +835,25 @@ class Outcome:
         else:
             # loaders obtained concurrently must stay correct for later calls (deeper data, and through the facade)
             for tid, ((direction, tp, depth), ld) in enumerate(zip(sc.threads, loaders)):
+                via = sc.vias[tid]
+                target = clones[tid] if via else retort      # the retort the thread used: the shared one or its own
+                if via and target is not None and self.results[tid] == "ok":
+                    # the ORIGIN is still the origin for the type the derived retort was used for
+                    exp0 = real.expected(direction, tp, depth)
+                    try:
+                        data0 = gen_data(tp, depth, direction)
+                        got0 = ("value", retort.load(data0, tp) if direction == "load" else retort.dump(data0, tp))
+                    except Exception as e:  # noqa: BLE001
+                        got0 = ("raises", classify_exc(e))
+                    if got0 != exp0:
+                        self.problems.append(("later-call:origin-changed-by-derivation",
+                                              f"after thread {tid} derived retort.{via} and used it, the shared retort "
+                                              f"gives {got0!r} for {direction} {type_name(tp)}, single-threaded {exp0!r}"))
                 if ld is None:
-                    if sc.failing[tid] and self.results[tid] == "not_found":
+                    if sc.failing[tid] and self.results[tid] == "not_found" and target is not None:
                         # a failing request fails the same way when it is issued again on the used retort
                         try:
-                            retort.get_loader(tp) if direction == "load" else retort.get_dumper(tp)
+                            target.get_loader(tp) if direction == "load" else target.get_dumper(tp)
                             again = "a loader"
                         except Exception as e:  # noqa: BLE001
                             again = classify_exc(e)
@@ -622,11 +863,11 @@ class Outcome:
                                                   f"gives {again} when repeated, not ProviderNotFoundError"))
                     continue
                 for dd in (depth + 2,):
-                    data = gen_data(tp, dd, direction)
-                    exp = real.expected(direction, tp, dd)
+                    data = via_data(via, gen_data(tp, dd, direction), direction)
+                    exp = real.expected(direction, tp, dd, via)
                     try:
                         got1 = ld(data)
-                        got2 = retort.load(data, tp) if direction == "load" else retort.dump(data, tp)
+                        got2 = target.load(data, tp) if direction == "load" else target.dump(data, tp)
                     except Exception as e:  # noqa: BLE001
                         self.problems.append(("later-call:" + classify_exc(e),
                                               f"loader obtained by thread {tid} fails on a later call: "
@@ -663,10 +904,37 @@ def classify_exc(e: BaseException) -> str:
     return "exception:" + type(e).__name__
 
 
-def thread_fn(real: Real, retort, direction, tp, depth, loaders: list, facade: bool):
-    data = gen_data(tp, depth, direction)
+def cache_sizes(retort, attrs) -> int:
+    """total number of entries of the shared caches of `retort` (harness bookkeeping: did they grow meanwhile?)"""
+    n = 0
+    for a in attrs:
+        try:
+            n += len(getattr(retort, a))
+        except Exception:  # noqa: BLE001
+            pass
+    return n
+
+
+def thread_fn(real: Real, origin, direction, tp, depth, loaders: list, facade: bool, via=None, clones=None):
+    data = via_data(via, gen_data(tp, depth, direction), direction)
 
     def fn(run: S.Run, tid: int):
+        retort = origin
+        if via is not None:
+            # the thread derives its own retort from the shared one and works with that (two harness-level actions
+            # around the call: what other threads do in between happens INSIDE `replace` / `extend`)
+            if not facade:
+                run.point("derive", lambda: [via, cache_sizes(origin, real.shared_attrs)])
+            run.wide(True)
+            try:
+                retort = derive(origin, via)
+            finally:
+                run.wide(False)
+            clones[tid] = retort
+            if not facade:
+                # recorded at once (not a scheduling point: the next one is the first cache access of the request)
+                run.point("derived", lambda: [via, cache_sizes(origin, real.shared_attrs),
+                                              cache_sizes(retort, real.shared_attrs)], scheduling=False)
         if facade:
             # the documented usage: retort.load(...) (get_loader + call in one statement)
             return retort.load(data, tp) if direction == "load" else retort.dump(data, tp)
@@ -701,9 +969,20 @@ LEAN_BAD_SCHEDULE = [0] * 14 + [1] * 19 + [0] * 5
 def execute(real: Real, sc: Scenario, chooser, mode="points", facade=False, sched_kinds=None) -> Outcome:
     retort = real.Retort()
     loaders = [None] * len(sc.threads)
-    run = S.Run(real.table, sc.namer(), mode=mode, step_timeout=10.0, sched_kinds=sched_kinds)
-    run.execute([thread_fn(real, retort, d, tp, depth, loaders, facade) for d, tp, depth in sc.threads], chooser)
-    return Outcome(sc, run, real, loaders, retort)
+    clones = [None] * len(sc.threads)
+    warm_exc = None
+    for d, tp, depth in sc.warm:
+        # the shared retort has been in use before the threads start (single-threaded, not scheduled)
+        try:
+            data = gen_data(tp, depth, d)
+            retort.load(data, tp) if d == "load" else retort.dump(data, tp)
+        except Exception as e:  # noqa: BLE001
+            warm_exc = e
+    run = S.Run(real.table, sc.namer(), mode=mode, step_timeout=10.0, sched_kinds=sched_kinds,
+                shared_points=sc.derive)
+    run.execute([thread_fn(real, retort, d, tp, depth, loaders, facade, via, clones)
+                 for (d, tp, depth), via in zip(sc.threads, sc.vias)], chooser)
+    return Outcome(sc, run, real, loaders, retort, clones, warm_exc)
 
 
 # ---------------------------------------------------------------------------
@@ -812,6 +1091,12 @@ def note(ctx: Ctx, sc: Scenario, oc: Outcome, how: str):
     ctx.note_case(case, nontrivial=interleaved, kind=f"{sc.family}/{how}")
     for r in oc.results:
         ctx.dist[f"outcome-{r}"] += 1
+    if sc.derive:
+        for via in sc.vias:
+            if via:
+                ctx.dist[f"derive-via:{via}"] += 1
+        for region in derive_regions(sc, oc):
+            ctx.dist["region:derive:" + region] += 1
     if any(sc.failing):
         # how deep into the region "a request fails while another thread is inside cached_call" the case goes
         ctx.dist["region:runs-with-a-failing-request"] += 1
@@ -820,6 +1105,75 @@ def note(ctx: Ctx, sc: Scenario, oc: Outcome, how: str):
             ctx.dist["region:request-fails-between-`key in cache`-and-`cache[key]`-of-another-thread"] += 1
         if fail_while_other_in_flight(sc, oc):
             ctx.dist["region:request-fails-while-another-request-is-in-flight"] += 1
+
+
+def derive_regions(sc: Scenario, oc: Outcome) -> list:
+    """which parts of the region "a retort is derived from the shared one while it is in first use" a run reaches
+    (read off the trace; `derive` / `derived` are the harness actions around the call, they carry the total size of
+    the origin's caches)"""
+    out = ["runs"]
+    if sc.warm:
+        out.append("origin-used-before")
+    if not any(a[1] == "derive" for a in oc.trace):
+        return out          # facade form: no harness actions, nothing to read off
+    span: dict = {}         # plain thread -> (first action, end of its creation phase)
+    for i, a in enumerate(oc.trace):
+        if sc.vias[a[0]] is None:
+            lo, hi = span.get(a[0], (i, None))
+            if hi is None and a[1] in ("lc_put", "not_found", "call"):
+                hi = i
+            span[a[0]] = (lo, hi)
+    in_flight = inside = grew = False
+    for tid, via in enumerate(sc.vias):
+        if not via:
+            continue
+        start = next((i for i, a in enumerate(oc.trace) if a[0] == tid and a[1] == "derive"), None)
+        if start is None:
+            continue
+        end = next((i for i, a in enumerate(oc.trace) if a[0] == tid and a[1] == "derived"), len(oc.trace))
+        for lo, hi in span.values():
+            if lo < start and (hi is None or hi > start):
+                in_flight = True        # another thread's first request has begun and is not finished
+        if any(a[0] != tid for a in oc.trace[start + 1:end]):
+            inside = True               # another thread ran while this one was inside `replace` / `extend`
+        size0 = oc.trace[start][3] if len(oc.trace[start]) > 3 else None
+        size1 = oc.trace[end][3] if end < len(oc.trace) and len(oc.trace[end]) > 3 else None
+        if inside and size0 is not None and (size1 is None or size1 != size0):
+            grew = True                 # ... and stored into a cache of the origin meanwhile
+    if in_flight:
+        out.append("while-a-first-request-is-in-flight")
+    if inside:
+        out.append("another-thread-runs-inside-the-deriving-call")
+    if grew:
+        out.append("origin-cache-store-inside-the-deriving-call")
+    return out
+
+
+def derive_observation(sc: Scenario, oc: Outcome, tid: int):
+    """the derivation of thread `tid` as the model sees it: (size of the origin's caches when it starts, the
+    interleaving of its own steps - the call itself and every further scheduling point at a statement touching a shared
+    cache - with the stores of the other threads, the observed end: state / entries in the caches of the derived retort
+    / number of steps).  None when the thread never got as far as deriving."""
+    start = next((i for i, a in enumerate(oc.trace) if a[0] == tid and a[1] == "derive"), None)
+    if start is None or len(oc.trace[start]) < 4:
+        return None
+    end = next((i for i, a in enumerate(oc.trace) if a[0] == tid and a[1] == "derived"), None)
+    acts, key = [], int(oc.trace[start][3])
+    origin = key
+    for a in oc.trace[start:end if end is not None else len(oc.trace)]:
+        if a[0] == tid and a[1] in ("derive", "shared"):
+            acts.append(["clone"])
+        elif a[0] != tid and a[1] in ("cc_store", "lc_put") and sc.vias[a[0]] is None:
+            acts.append(["store", key])         # a store of a plain thread goes to the origin (a new key: it missed)
+            key += 1
+    steps = sum(1 for x in acts if x == ["clone"])
+    if end is not None:
+        size = oc.trace[end][4] if len(oc.trace[end]) > 4 else -1
+        return origin, acts, {"state": "done", "size": size, "steps": steps}
+    ts = oc.run.threads[tid]
+    if ts.exc is not None:
+        return origin, acts, {"state": "error", "size": 0, "steps": steps}
+    return None
 
 
 def _last_shared_action(sc: Scenario, oc: Outcome) -> dict:
@@ -863,7 +1217,9 @@ def oracle(ctx: Ctx, sc: Scenario, oc: Outcome, mode: str, facade: bool):
         ctx.fail(f"{sc.family}:{cls}", f"[{sc.name}] {what} (schedule of {len(oc.run.schedule)} decisions, "
                  f"{mode} granularity)",
                  {"scenario": sc.name, "mode": mode, "facade": facade, "schedule": oc.run.schedule,
-                  "threads": [[d, type_name(tp), depth] for d, tp, depth in sc.threads]})
+                  "threads": [[d, type_name(tp), depth] for d, tp, depth in sc.threads],
+                  **({"vias": sc.vias, "warm": [[d, type_name(tp), depth] for d, tp, depth in sc.warm]}
+                     if sc.derive else {})})
 
 
 class Batch:
@@ -872,12 +1228,44 @@ class Batch:
     def __init__(self, ctx: Ctx, real: Real, drv):
         self.ctx, self.real, self.drv = ctx, real, drv
         self.items: list[tuple[Scenario, Outcome]] = []
+        self.derive_items: list[tuple[Scenario, Outcome]] = []
 
     def add(self, sc, oc):
         if self.drv is not None and oc.run.deadlock is None and sc.modelled:
             self.items.append((sc, oc))
+        elif self.drv is not None and oc.run.deadlock is None and sc.derive:
+            self.derive_items.append((sc, oc))
+
+    def flush_derive(self):
+        """suite `derive-run`: every derivation of every compared run against the model of the cloning code AS IT IS
+        (`Strategy.fresh`, AdaptixModel/Retort/Derive.lean) run on the same interleaving of clone steps and stores:
+        the real derivation must complete, in as many steps that touch a shared cache as the model takes (one: the
+        call itself), and hand over a retort whose caches hold as many entries as the model's (none)"""
+        items, self.derive_items = self.derive_items, []
+        if not items or self.drv is None:
+            return
+        reqs, obs, cases = [], [], []
+        for sc, oc in items:
+            for tid, via in enumerate(sc.vias):
+                if not via:
+                    continue
+                got = derive_observation(sc, oc, tid)
+                if got is None:
+                    continue
+                origin, acts, real_obs = got
+                reqs.append({"op": "derive_run", "strategy": "fresh", "origin": origin, "acts": acts})
+                obs.append(real_obs)
+                cases.append({"scenario": sc.name, "schedule": oc.run.schedule, "thread": tid, "acts": acts})
+        reps = self.drv.batch(reqs)
+        d = 0
+        for case, real_obs, rep in zip(cases, obs, reps):
+            if rep.get("ok") != real_obs:
+                d += 1
+                self.ctx.disagree("derive-run", case, real_obs, rep)
+        self.ctx.suite("derive-run", len(reqs), d)
 
     def flush(self):
+        self.flush_derive()
         if not self.items or self.drv is None:
             self.items = []
             return
@@ -948,10 +1336,14 @@ def explore_outcomes(ex, max_pre, deadline, rng):
 
 
 def pick_scenario(rng, names) -> Scenario:
-    """random stages: a named scenario, or (3 times in 10) a random member of the failing-request family"""
-    if rng.random() < 0.3:
+    """random stages: a named scenario, (3 times in 10) a random member of the failing-request family, or (3 in 20)
+    a random member of the family in which a thread derives a retort from the shared one"""
+    r = rng.random()
+    if r < 0.3:
         threads = mixed_random(rng)
         return Scenario(mixed_name(threads), threads)
+    if r < 0.45:
+        return derive_scenario(*derive_random(rng))
     return Scenario(rng.choice(names))
 
 
@@ -988,6 +1380,45 @@ def run_mixed(ctx: Ctx, real: Real, batch: Batch, thorough: bool, deadline: floa
     return done
 
 
+def run_derive(ctx: Ctx, real: Real, batch: Batch, thorough: bool, deadline: float) -> dict:
+    """ALL schedules with <= 1 preemption for the systematic members of the derive family in seed order, then (a
+    quarter of the slice) random schedules of random members at statement granularity with wide tracing of the
+    cloning code"""
+    import random
+    done: dict = {}
+    t0 = time.time()
+    t_points = t0 + (deadline - t0) * (0.55 if thorough else 0.75)
+    t_lines = t0 + (deadline - t0) * 0.75
+    # the members explored systematically depend on the seed only (the shared rng has been drawn from a
+    # timing-dependent number of times by the sliced stages before)
+    for warm, threads, vias in derive_cases(random.Random(f"{ctx.pid}:derive:{ctx.seed}"), not thorough):
+        if time.time() > t_points:
+            break
+        sc = derive_scenario(warm, threads, vias)
+        if sc.name in done:
+            continue
+        n = explore(ctx, real, batch, sc, 1, t_points, None)
+        done[sc.name] = {"schedules_le1": n, "complete": time.time() < t_points}
+        batch.flush()
+    while thorough and time.time() < t_lines:
+        # <= 2 preemptions and three-thread members, sampled
+        sc = derive_scenario(*derive_random(ctx.rng))
+        explore(ctx, real, batch, sc, 2, min(t_lines, time.time() + 3), ctx.rng)
+        batch.flush()
+    n_lines = 0
+    while time.time() < deadline:
+        sc = derive_scenario(*derive_random(ctx.rng))
+        facade = ctx.rng.random() < 0.3
+        chooser = (S.chooser_random(ctx.rng, ctx.rng.choice([0.02, 0.05, 0.2])) if facade else
+                   chooser_inside_derive(ctx.rng, sc, ctx.rng.choice([0.02, 0.05, 0.1]), ctx.rng.choice([0.0, 0.01])))
+        oc = execute(real, sc, chooser, mode="lines", facade=facade)
+        note(ctx, sc, oc, "lines-wide")
+        oracle(ctx, sc, oc, "lines", facade)
+        n_lines += 1
+    done["(statement granularity, wide)"] = {"runs": n_lines}
+    return done
+
+
 def run(ctx: Ctx):
     real = Real()
     ctx.extra["funcwrapper_equality"] = real.mode
@@ -1003,7 +1434,7 @@ def run(ctx: Ctx):
             drv = None
     batch = Batch(ctx, real, drv)
     thorough = ctx.tier == "thorough"
-    t_end = time.time() + ctx.budget(60, 480)
+    t_end = time.time() + ctx.budget(66, 525)
     stage_t = {"start": time.time()}
 
     def stage(name):
@@ -1053,6 +1484,13 @@ def run(ctx: Ctx):
     mixed_done = run_mixed(ctx, real, batch, thorough, min(t_end, time.time() + ctx.budget(6, 45)))
     ctx.extra["failing_request_scenarios"] = mixed_done
     stage("1b failing-request family")
+    # 1c. a thread DERIVES a retort from the shared one (`replace` / `extend`) and uses it while the others make first
+    #     requests on the origin (generated family, see DERIVATIONS): all schedules with <= 1 preemption per scenario,
+    #     scheduling points = the located yield points + every statement touching the contents of a shared cache
+    ctx.extra["shared_containers"] = real.shared_attrs
+    ctx.extra["shared_access_statements"] = real.table.shared_statements
+    ctx.extra["derive_scenarios"] = run_derive(ctx, real, batch, thorough, min(t_end, time.time() + ctx.budget(6, 45)))
+    stage("1c derive family")
     # 2. <= 2 preemptions: exhaustive for QUICK_FULL2 (thorough: every scenario not in THOROUGH_SLICED), otherwise
     #    a time slice in randomised order
     for name in sorted(names, key=lambda n: n not in QUICK_FULL2):
@@ -1105,10 +1543,10 @@ def run(ctx: Ctx):
         if time.time() > t_lines:
             break
         sc = pick_scenario(ctx.rng, names)
-        oc = execute(real, sc, S.chooser_random(ctx.rng, ctx.rng.choice([0.05, 0.2])), mode="lines",
-                     facade=ctx.rng.random() < 0.5)
+        facade = ctx.rng.random() < 0.5
+        oc = execute(real, sc, S.chooser_random(ctx.rng, ctx.rng.choice([0.05, 0.2])), mode="lines", facade=facade)
         note(ctx, sc, oc, "lines-random")
-        oracle(ctx, sc, oc, "lines", False)
+        oracle(ctx, sc, oc, "lines", facade)      # (the recorded case names the form that was run)
     stage("4 statement granularity")
 
 
@@ -1125,7 +1563,22 @@ def search(ctx: Ctx):
     deadline = time.time() + ctx.budget(120, 400)
     pairs = mixed_pairs()
     ctx.rng.shuffle(pairs)
-    for name in list(SCENARIOS) + [mixed_name(t) for t in pairs[:12]]:
+    derived = [derive_scenario(*c).name for c in derive_cases(ctx.rng, True)[:4]]
+    if any(d.get("suite") == "derive-run" for d in ctx.disagreements):
+        # the tie of the cloning code broke: look there first - statement granularity, every line the cloning code
+        # executes is a preemption point, and the preemptions are spent inside the deriving call
+        t_drv = min(deadline, time.time() + ctx.budget(60, 150))
+        cases = derive_cases(ctx.rng, True)
+        i = 0
+        while not ctx.failures and time.time() < t_drv:
+            sc = derive_scenario(*(cases[i % len(cases)] if i % 2 == 0 else derive_random(ctx.rng)))
+            i += 1
+            oc = execute(real, sc, chooser_inside_derive(ctx.rng, sc, ctx.rng.choice([0.02, 0.05, 0.1]),
+                                                         ctx.rng.choice([0.0, 0.01])), mode="lines")
+            note(ctx, sc, oc, "search-lines-wide")
+            oracle(ctx, sc, oc, "lines", False)
+    todo = list(SCENARIOS) + derived
+    for name in todo + [mixed_name(t) for t in pairs[:12]]:
         if ctx.failures or time.time() > deadline:
             break
         sc = scenario_by_name(name)
